@@ -205,6 +205,26 @@ pub fn run_case(t: &[u8]) -> String {
         Ok(v) => ow(&OwnedLazyValue::from(v)),
         Err(_) => "R".into(),
     });
+    // conversion after the borrowed value (or a clone sharing its cache) has been read through every accessor
+    ep!("o.from_read", match sonic_rs::from_slice::<LazyValue>(t) {
+        Ok(v) => {
+            let c = v.clone();
+            let _ = lz(&c);
+            let _ = lz(&v);
+            ow(&OwnedLazyValue::from(v))
+        }
+        Err(_) => "R".into(),
+    });
+    ep!("o.from_get_read", match sonic_rs::get(&wrapped[..], &["k"]) {
+        Ok(v) => {
+            let _ = lz(&v);
+            let o = OwnedLazyValue::from(v.clone());
+            let a = ow(&o);
+            let b = ow(&OwnedLazyValue::from(v));
+            if a == b { a } else { format!("CONV!{}!{}", a, b) }
+        }
+        Err(_) => "R".into(),
+    });
     ep!("o.clone", match sonic_rs::from_slice::<OwnedLazyValue>(t) {
         Ok(v) => {
             // clone before and after the caches are loaded; the clones must read the same
